@@ -140,9 +140,17 @@ impl RelayMap {
 
     /// Extends this `RelayMap` with another one.
     pub fn extend(&self, other: &RelayMap) {
-        let mut a = self.relays.write().expect("poisoned");
-        let b = other.relays.read().expect("poisoned");
-        a.extend(b.iter().map(|(a, b)| (a.clone(), b.clone())));
+        // Copy `other`'s entries before taking our own write lock: the two maps may share
+        // one lock (clones), and holding both locks at once would also allow a lock-order
+        // inversion between `a.extend(&b)` and `b.extend(&a)` on different threads.
+        let entries: Vec<_> = other
+            .relays
+            .read()
+            .expect("poisoned")
+            .iter()
+            .map(|(url, config)| (url.clone(), config.clone()))
+            .collect();
+        self.relays.write().expect("poisoned").extend(entries);
     }
 
     /// Sets an authorization token for all relays configured in this relay map.
